@@ -205,6 +205,11 @@ def cost_forms() -> list[dict]:
         (f'{n1} # {n2} {cur}', {'number_per': n1, 'number_total': n2, 'currency': cur}),
         (f'{n1} # {cur}', {'number_per': n1, 'currency': cur}),
         (f'# {n2} {cur}', {'number_total': n2, 'currency': cur}),
+        # the same compound forms without blanks around the '#'
+        (f'{n1}# {n2} {cur}', {'number_per': n1, 'number_total': n2, 'currency': cur}),
+        (f'{n1}#{n2} {cur}', {'number_per': n1, 'number_total': n2, 'currency': cur}),
+        (f'{n1}#{cur}', {'number_per': n1, 'currency': cur}),
+        (f'#{n2} {cur}', {'number_total': n2, 'currency': cur}),
         # number and currency as two separate components (legal for the grammar; each is read from wherever it stands)
         (f'{n1}, {cur}', {'num': n1, 'currency': cur}),
         (f'{cur}, {n1}', {'num': n1, 'currency': cur}),
